@@ -201,6 +201,18 @@ def end_to_end(ctx, n):
                 if p not in ("", "/"):
                     break
             pats.append(p)
+        if t % 5 == 4:
+            # pattern sets in which EVERY pattern is anchored and one has a character class in a directory component (not the
+            # last one): what the class matches is a directory, what is excluded lies one level further down
+            yrs = ["2018", "2019", "20x", "2o19"]
+            tree["c"]["logs"] = {"k": "d", "mode": 0o755, "mtime": 10**18, "c": {
+                y: {"k": "d", "mode": 0o755, "mtime": 10**18, "c": {
+                    "raw": {"k": "d", "mode": 0o755, "mtime": 10**18, "c": {"f": {"k": "f", "data": "72", "mode": 0o644, "mtime": 10**18 + 1}}},
+                    "kept": {"k": "f", "data": "6b", "mode": 0o644, "mtime": 10**18 + 2}}} for y in yrs}}
+            pats = [ctx.rng.choice(["/logs/201[0-9]/raw", "/logs/20[1x][89x]/raw", "/logs/2[0o]1[89]/raw/f", "/logs/201[!8]/raw"])]
+            if ctx.rng.random() < 0.5:
+                pats.append("/logs/20x/kept")
+            names = tree_names(tree)
         opts = gen.rand_opts(ctx.rng)
         if t % 3 == 2:
             # a directory whose children alternate between a matching and a non-matching name, stored in index hunks of an
